@@ -93,9 +93,9 @@ def main():
                         continue
                     passed = False
                     for attempt in range(4):
-                        for _ in range(120):
-                            if os.getloadavg()[0] < 10: break
-                            time.sleep(20)
+                        for _ in range(1440):  # wait (up to 12 h) for a quiet machine: the test has hard-coded timeouts
+                            if os.getloadavg()[0] < 12: break
+                            time.sleep(30)
                         t = time.time()
                         rcx, outx = sh(cmd + " 2>&1 | tail -12", wt, 3600)
                         if "FAIL" not in outx and "ok" in outx:
